@@ -5,6 +5,8 @@ import (
 	"runtime"
 	"runtime/metrics"
 	"sort"
+	"strings"
+	"syscall"
 	"testing"
 
 	tq "github.com/facebookincubator/tacquito"
@@ -38,6 +40,8 @@ type c05Case struct {
 	// Proxy: the server runs with SetUseProxy(true) and every packet is preceded by an HAProxy
 	// protocol line terminated by a NUL octet, as that mode expects (server side only)
 	Proxy bool `json:"proxy,omitempty"`
+	// Reset: where the stream ends it ends in a transport error (connection reset by peer), not in EOF
+	Reset bool `json:"reset,omitempty"`
 }
 
 const proxyLine = "PROXY TCP4 192.0.2.1 198.51.100.7 40000 49\r\n\x00"
@@ -107,6 +111,7 @@ func genC05(t *rapid.T) c05Case {
 	if c.Side == "client" {
 		c.Terminal = rapid.SampledFrom([]string{"eof-boundary", "eof-mid-header", "eof-mid-body", "oversize"}).Draw(t, "terminal_client")
 	}
+	c.Reset = rapid.IntRange(0, 3).Draw(t, "ends_in_reset") == 0
 	switch c.Terminal {
 	case "eof-mid-header":
 		c.Partial = rapid.IntRange(1, 11).Draw(t, "partial")
@@ -298,7 +303,15 @@ func runC05(t failer, c c05Case) {
 		conn.Feed(chunks...)
 		switch c.Terminal {
 		case "eof-boundary", "eof-mid-header", "eof-mid-body":
-			conn.FeedEOF()
+			if c.Reset {
+				conn.FeedError(syscall.ECONNRESET)
+			} else {
+				if c.Reset {
+					conn.FeedError(syscall.ECONNRESET)
+				} else {
+					conn.FeedEOF()
+				}
+			}
 		}
 		if !conn.AwaitQuiescentOrClosed(watchdog) {
 			t.Fatalf("HARNESS-BUG/INCONCLUSIVE: connection neither quiescent nor closed")
@@ -413,6 +426,9 @@ func runC05(t failer, c c05Case) {
 func classifyC05(c c05Case) {
 	ev.Class("side:" + c.Side)
 	ev.Class("terminal:" + c.Terminal)
+	if c.Reset && strings.HasPrefix(c.Terminal, "eof") {
+		ev.Class("stream-ends-in-connection-reset")
+	}
 	if len(c.Cuts) == 0 {
 		ev.Class("cuts:none(one chunk)")
 	}
